@@ -1,7 +1,7 @@
 SPEC = {
     "id": "C03",
     "harness": "c03",
-    "n": {"quick": 3000, "thorough": 110000},
+    "n": {"quick": 3000, "thorough": 80000},
     "shard": 200,
     "trusted_base": [
         "/repo hook html/tree/verif_export_c03.go (VerifC03NewCSS = newCSS with a fetcher/media type, VerifC03Precedence, VerifC03WeightLess, VerifC03Matcher)",
@@ -9,7 +9,7 @@ SPEC = {
         "selector matching/specificity of the small fragment used (tag, class, id, *, compound, descendant, child, :is()) is modelled directly in Css/Cascade.v (C05 owns selectors)",
     ],
     "not_modelled": [
-        "pseudo-elements (independent cascade per (element, pseudo) key)", "@page cascade (addPageDeclarations)",
+        "@page cascade (addPageDeclarations)", "nested rules under a parent selector with a pseudo-element (the code drops the whole parent rule on the selector error)",
         "`&` in a top-level rule (the code reads it as :root with specificity (0,1,0); excluded by hypothesis doc_no_top_amp)",
         "invalid selectors / declarations (dropped before the cascade: C08)", "media queries other than media types (rejected as a whole by parseMediaQuery)",
         "@layer, @scope, @supports (skipped by preprocessStylesheet)", "UA !important declarations are ranked as plain UA declarations (CSS 2.1 table, as in the property text)",
@@ -21,10 +21,10 @@ SPEC = {
         "pair": "C03_cascade_impl_spec", "triple": "C03_cascade_impl_spec", "random": "C03_cascade_impl_spec", "corpus": "C03_cascade_impl_spec",
         "precedence": "C03_precedence_table_correct", "less": "C03_weight_less_is_le", "flatten": "C03_flatten_preserves_order / C03_media_filter_sound",
     },
-    "rule": "corpus first; declarationPrecedence exhaustively; weight.Less on random/boundary weights; flattened matcher of random sheets; every ordered pair (thorough: x all placements, and every triple) of competing declarations over origin x importance x {hint attribute, hint sheet, (0,0,1), (0,1,0), (0,1,1), (1,0,0), (2,0,0), style attribute} x placement {plain, matching @media, non-matching @media, @import, nested &, nested list} x {same sheet, different sheets}; random documents (1-3 properties, 0-3 author sheets as <style>/<link>, UA, hint and user sheets, @import chains, nested rules, style and presentational attributes, print/screen); non-trivial = some declaration wins on some element; distinct by Coq term",
+    "rule": "corpus first; declarationPrecedence exhaustively; weight.Less on random/boundary weights; flattened matcher of random sheets; every ordered pair (thorough: x all placements, and every triple) of competing declarations over origin x importance x {hint attribute, hint sheet, (0,0,1), (0,1,0), (0,1,1), (1,0,0), (2,0,0), style attribute} x placement {plain, matching @media, non-matching @media, @import, nested &, nested list} x {same sheet, different sheets}; random documents (1-3 properties, 0-3 author sheets as <style>/<link>, UA, hint and user sheets, @import chains, nested rules, style and presentational attributes, ::before/::after/::marker selectors in a third of them, print/screen); non-trivial = some declaration wins on some element; distinct by Coq term",
 }
 MANIFEST = {
-    "text": "Coq theorem cascade_impl_spec: the model of newStyleFor/preprocessStylesheet/PreprocessDeclarationsPrelude (insertion loops guarded by weight.Less, sheet order, @import/@media/nesting flattening) returns, for every document, element and property, the arg-max of (origin+importance level, specificity rank with style attribute on top and hints at zero, order of appearance) among the declarations that apply; plus precedence table, Less = <=, flatten order, media filtering, total order. The model is compared with /repo on generated documents on every run (computed style read back through unique integer values).",
-    "note": "Trusted: Coq kernel, Go harness + hook html/tree/verif_export_c03.go, HTML/CSS parsing and the selector fragment's matching. Partial: pseudo-elements, @page, top-level `&`, invalid input are outside the model.",
+    "text": "Coq theorem cascade_impl_spec: the model of newStyleFor/preprocessStylesheet/PreprocessDeclarationsPrelude (insertion loops guarded by weight.Less, sheet order, @import/@media/nesting flattening) returns, for every document, element or pseudo-element and property, the arg-max of (origin+importance level, specificity rank with style attribute on top and hints at zero, order of appearance) among the declarations that apply; plus precedence table, Less = <=, flatten order, media filtering, total order. The model is compared with /repo on generated documents on every run (computed style read back through unique integer values).",
+    "note": "Trusted: Coq kernel, Go harness + hook html/tree/verif_export_c03.go, HTML/CSS parsing and the selector fragment's matching. Partial: @page, top-level `&`, invalid input are outside the model.",
     "technique": "Coq proof over executable model + vm_compute correspondence with the Go implementation",
 }
